@@ -104,6 +104,7 @@ package influxql
 //@   safety C05 C04
 //@   requires r != nil && 0 <= r.i && r.i < 3 && 0 <= r.n && r.n <= 3
 //@   ensures 0 <= r.i && r.i < 3 && 0 <= r.n && r.n <= 2
+//@   ensures err != nil ==> ch == 0
 
 //@ func (*reader).UnreadRune
 //@   props C05 C04 C06
